@@ -81,6 +81,16 @@ def gen_sub(rng, mode, g, sizes, ttls, tags):
         for _ in range(rng.choice([0, 1, 1, 2, 2, 3])):
             pubs.append(f"{rng.choice(tags)}.{rng.choice(sizes)}.{rng.choice(ttls)}")
         h = kind + ":" + "+".join(pubs)
+    w = "-"
+    if not cache and rng.random() < 0.4:
+        # in-window events: fresh publications and late PUB/SUB copies of old ones, after the history read
+        evs = []
+        for _ in range(rng.choice([1, 1, 2, 2, 3, 4])):
+            if rng.random() < 0.6:
+                evs.append(f"p{rng.choice(tags)}.{rng.choice(sizes)}.{rng.choice(ttls)}")
+            else:
+                evs.append(f"s{rng.choice([0, 0, 1, 1, 2, 3, 5, max(0, top - off), max(0, top - off - 1)])}")
+        w = "+".join(evs)
     via = "connect" if rng.random() < 0.3 else "cmd"
     if via == "connect":
         # connectCmd copies only Recover/Offset/Epoch/Delta from ConnectRequest.Subs: no client filter, no flag
@@ -88,7 +98,7 @@ def gen_sub(rng, mode, g, sizes, ttls, tags):
             sf = cf
         cf, rej = "-", 0
     return (f"sub via={via} mode={mode} rec={rec} auto={auto} off={off} ep={ep} rej={rej} delta={delta} "
-            f"cf={cf} sf={sf} h={h}")
+            f"cf={cf} sf={sf} h={h} w={w}")
 
 
 def gen_scenario(rng, mode):
@@ -113,8 +123,14 @@ def gen_scenario(rng, mode):
         m = mode if mode != "mixed" else rng.choice(["stream", "cache"])
         line = gen_sub(rng, m, g, sizes, ttls, tags)
         touch()
+        wspec = kvs(line).get("w", "-")
+        if wspec != "-":
+            npw = sum(1 for e in wspec.split("+") if e.startswith("p"))
+            g["top"] += npw
+            g["total"] += npw
         if " h=-" not in line and m == "cache":
-            npub = 0 if line.endswith(":") else line.rsplit(":", 1)[1].count("+") + 1
+            hspec = kvs(line)["h"]
+            npub = 0 if hspec.endswith(":") else hspec.split(":", 1)[1].count("+") + 1
             g["top"] += npub      # only a guess: the handler may not be invoked
             g["total"] += npub
         return line
@@ -249,10 +265,19 @@ class Track:
 
     def feed_sub(self, op, r):
         """Account the publishes of the cache-empty handler (offsets reported by the harness)."""
-        hs = handler_spec(kvs(op).get("h", "-"))
-        if not hs or not r["hp"]:
+        d = kvs(op)
+        if not r["hp"]:
             return
         ep = r["post"]["ep"] if r["post"] else 0
+        wspec = d.get("w", "-")
+        if wspec != "-":
+            wtags = [int(e[1:].split(".")[0]) for e in wspec.split("+") if e.startswith("p")]
+            for off, tag in zip(r["hp"], wtags):
+                self.add(ep, off, tag)
+            return
+        hs = handler_spec(d.get("h", "-"))
+        if not hs:
+            return
         for off, (tag, _, _) in zip(r["hp"], hs[1]):
             self.add(ep, off, tag)
 
@@ -276,9 +301,14 @@ def log_sane(track, ep, top):
 # ----------------------------------------------------------------------------- C02 oracle
 def c02_facts(op, r, track):
     """Classification of one stream-mode subscribe from the implementation's observations."""
-    st = r["post"] if r["pre"] is None else r["pre"]
-    if st is None:
-        return None
+    if r["pre"] is None:
+        # no stream before the subscribe: its history read created a fresh one (top 0, nothing retained);
+        # the post state may already contain publications made while the subscribe was in flight
+        if r["post"] is None:
+            return None
+        st = {"top": 0, "ep": r["post"]["ep"], "n": 0, "lo": 0, "hi": 0}
+    else:
+        st = r["pre"]
     E, top = st["ep"], st["top"]
     off, ep = int(op["off"]), int(op["ep"])
     epoch_ok = ep == 0 or (ep == E and ep <= track.max_ep)
@@ -304,7 +334,15 @@ def c02_oracle(opline, out, track):
         return "no stream state observable after subscribe", None
     attempted = op["rec"] == "1"
     rej = op["rej"] == "1"
+    window = op.get("w", "-") != "-"
+    f["window"] = window
+    f["window_stale"] = window and any(e.startswith("s") for e in op["w"].split("+"))
+    f["window_pub"] = bool(r["hp"]) and window
     if r["kind"] == "disc":
+        if r["code"] == "3010" and window:
+            # PUB/SUB traffic during the subscribe: the merge may find a gap it cannot account for
+            # (C39 / C01 territory); exactness of *when* is left to the model comparison
+            return None, f
         return f"unexpected disconnect {r['code']} instead of a subscribe reply", f
     if r["kind"] == "err":
         if r["code"] != "112":
@@ -331,7 +369,8 @@ def c02_oracle(opline, out, track):
         return "recovered=true although a publication after the requested offset is missing from history", f
     if f["truncated"]:
         return "recovered=true although the recovery publication limit truncated the result", f
-    if not log_sane(track, f["E"], f["top"]):
+    top_now = r["post"]["top"] if r["post"] and r["post"]["ep"] == f["E"] else f["top"]
+    if not log_sane(track, f["E"], top_now):
         return None, f   # harness lost track of the log (cannot happen unless Publish failed); no verdict
     exp = [(o, str(i)) for o, t, i in track.log.get(f["E"], []) if o > f["off"] and passes(op, t)]
     if r["pubs"] != exp:
@@ -342,6 +381,15 @@ def c02_oracle(opline, out, track):
 def c02_branch(op, f, track):
     """Histogram keys for one subscribe."""
     keys = ["via:" + op.get("via", "cmd")]
+    if f.get("window"):
+        keys.append("window:events")
+        if f.get("window_pub"):
+            keys.append("window:fresh-publication")
+        if f.get("window_stale"):
+            keys.append("window:stale-copy")
+        if f.get("window_pub") and f["epoch_ok"] and not f["beyond"] and not f["missing"] and not f["truncated"] \
+                and f["off"] < f["top"]:
+            keys.append("window:fresh-publication-while-recovering-a-gap")
     st = f["st"]
     if op.get("via") == "connect" and not f["epoch_ok"] and f["off"] <= f["top"] and not f["missing"]:
         keys.append("via:connect,stale-epoch,offset-retained")
